@@ -49,7 +49,7 @@ type Blob struct {
 }
 
 type Fault struct {
-	Kind  string `json:"kind"`  // none | chunk
+	Kind  string `json:"kind"`  // none | chunk | replylost (the Call-th answered RPC of the kind named by Chunk: < 0 any, 0 record transfers, > 0 shard chunks, loses its reply: the receiver has executed it, the sender sees a failure)
 	Call  int    `json:"call"`  // fail the Call-th (1-based) shard-chunk delivery that has chunk index == Chunk ...
 	Chunk int    `json:"chunk"` // ... (Chunk < 0: any chunk index, i.e. simply the Call-th delivery)
 }
@@ -123,6 +123,9 @@ func genCase(t *rapid.T) Case {
 	c.RelDirs = rapid.IntRange(0, 2).Draw(t, "relDirs") == 0
 	if rapid.IntRange(0, 2).Draw(t, "fault") == 0 {
 		c.Fault = Fault{Kind: "chunk", Call: rapid.IntRange(1, 4).Draw(t, "fcall"), Chunk: rapid.SampledFrom([]int{-1, 0, 1, 1, 2}).Draw(t, "fchunk")}
+		if rapid.IntRange(0, 2).Draw(t, "freply") == 0 {
+			c.Fault.Kind = "replylost"
+		}
 	} else {
 		c.Fault = Fault{Kind: "none"}
 	}
@@ -522,9 +525,24 @@ func execCase(c Case) (res vt.Result) {
 		return errs
 	}
 	faulted := false
-	if c.Fault.Kind == "chunk" {
+	if c.Fault.Kind == "chunk" || c.Fault.Kind == "replylost" {
 		var calls atomic.Int64
 		fn := func(point string, index int) error {
+			if c.Fault.Kind == "replylost" {
+				// the request was executed by the receiver; its answer never reaches the sender
+				if !strings.HasPrefix(point, "routed:") {
+					return nil
+				}
+				isRecords, isChunk := strings.HasPrefix(point, "routed:ClusterNode.RPCSetNodeKeyValue>"), strings.HasPrefix(point, "routed:ClusterNode.RPCSendShard>")
+				if !(isRecords || isChunk) || (c.Fault.Chunk == 0 && !isRecords) || (c.Fault.Chunk > 0 && !isChunk) {
+					return nil
+				}
+				if calls.Add(1) == int64(c.Fault.Call) {
+					faulted = true
+					return errors.New("verif: the connection broke before the answer arrived")
+				}
+				return nil
+			}
 			if point != "sendshard" {
 				return nil
 			}
@@ -545,8 +563,11 @@ func execCase(c Case) (res vt.Result) {
 		cluster.VerifFaultFn.Store(nil)
 		if faulted {
 			rec.Count("faulted_syncs", 1)
+			if c.Fault.Kind == "replylost" {
+				rec.Count("syncs_with_a_lost_reply", 1)
+			}
 			if len(errs) == 0 {
-				return fail("a shard transfer was interrupted at chunk %d but every node's sync reported success", c.Fault.Chunk)
+				return fail("a transfer was interrupted (%s, call %d, chunk %d) but every node's sync reported success", c.Fault.Kind, c.Fault.Call, c.Fault.Chunk)
 			}
 			// nothing may be lost: every shard file still exists somewhere in its original form, every record is still held by a node
 			mid, err := e.shardFiles()
